@@ -600,6 +600,8 @@ def gen_request(ctx, actor=None, ver=None, max_items=3, weights=None,
     n = 1
     if r.random() < p_batch:
         n = r.randint(2, max_items)
+        if r.random() < 0.08:
+            n = r.randint(5, 10)
     items = [gen_op(ctx, tuple(ver), actor, weights) for _ in range(n)]
     if r.random() < 0.12:
         decorate(ctx, r.choice(items))
